@@ -1,4 +1,157 @@
 import Mixin.Model.Auth
+/-!
+# C30 — peer authentication binds identity, recipient, freshness and role
+
+Theorems about `Mixin.Model.Auth` (`kernel/node.go` `BuildAuthenticationMessage`, `AuthenticateAs`).
+Signature validity and the key → peer id derivation are an arbitrary `Oracle`; unforgeability is
+*not* a theorem — what is proved is which bytes the one signature check covers.
+-/
 namespace Mixin.C30
-theorem stub : True := trivial
+open Mixin.Auth
+open Mixin.Proto (Bytes)
+
+/-! ## acceptance -/
+
+/-- **Accept iff.** A message authenticates at `recipient` exactly when it has 137 bytes, is
+    fresh (or the caller disabled freshness with `timeout ≤ 0`), names `recipient`, does not
+    come from `recipient` itself, and carries a signature by the key it names over its first
+    73 bytes. -/
+theorem auth_accept_iff (O : Oracle) (recipient msg : Bytes) (timeout now : Int) :
+    (authenticateAs O recipient msg timeout now).isSome = true ↔
+      msg.length = 137 ∧
+      (timeout ≤ 0 ∨ skewExceeds now (tsOf msg) timeout = false) ∧
+      recipientOf msg = recipient ∧
+      O.idOf (keyOf msg) ≠ recipient ∧
+      O.verify (keyOf msg) (prefixOf msg) (sigOf msg) = true := by
+  unfold authenticateAs
+  by_cases h1 : msg.length = 137
+  · rw [if_neg (by simp [h1])]
+    by_cases h2 : timeout > 0 ∧ skewExceeds now (tsOf msg) timeout = true
+    · rw [if_pos h2]
+      constructor
+      · intro h; simp at h
+      · intro ⟨_, h, _⟩
+        rcases h with h | h
+        · omega
+        · rw [h] at h2; simp at h2
+    · rw [if_neg h2]
+      have hf : timeout ≤ 0 ∨ skewExceeds now (tsOf msg) timeout = false := by
+        by_cases h : timeout ≤ 0
+        · exact Or.inl h
+        · right
+          have : timeout > 0 := by omega
+          cases hs : skewExceeds now (tsOf msg) timeout with
+          | false => rfl
+          | true => exact absurd ⟨this, hs⟩ h2
+      by_cases h3 : recipientOf msg = recipient
+      · rw [if_neg (by simp [h3])]
+        by_cases h4 : O.idOf (keyOf msg) = recipient
+        · rw [if_pos h4]
+          constructor
+          · intro h; simp at h
+          · intro ⟨_, _, _, h, _⟩; exact absurd h4 h
+        · rw [if_neg h4]
+          by_cases h5 : O.verify (keyOf msg) (prefixOf msg) (sigOf msg) = true
+          · rw [if_neg (by simp [h5])]
+            constructor
+            · intro _; exact ⟨h1, hf, h3, h4, h5⟩
+            · intro _; simp
+          · have h5' : O.verify (keyOf msg) (prefixOf msg) (sigOf msg) = false := by
+              cases hv : O.verify (keyOf msg) (prefixOf msg) (sigOf msg) with
+              | false => rfl
+              | true => exact absurd hv h5
+            rw [if_pos h5']
+            constructor
+            · intro h; simp at h
+            · intro ⟨_, _, _, _, h⟩; exact absurd h h5
+      · rw [if_pos h3]
+        constructor
+        · intro h; simp at h
+        · intro ⟨_, _, h, _⟩; exact absurd h h3
+  · rw [if_pos h1]
+    constructor
+    · intro h; simp at h
+    · intro ⟨h, _⟩; exact absurd h h1
+
+/-- **Token fields.** The authenticated identity is derived from the key in the message, the
+    role from byte 72, the timestamp from bytes [0,8). -/
+theorem auth_token_fields (O : Oracle) (recipient msg : Bytes) (timeout now : Int) (tok : Token)
+    (h : authenticateAs O recipient msg timeout now = some tok) :
+    tok.peerId = O.idOf (keyOf msg) ∧ tok.isRelayer = (flagOf msg == 1) ∧ tok.timestamp = tsOf msg ∧
+    tok.data = msg := by
+  unfold authenticateAs at h
+  repeat' (split at h)
+  all_goals (try (simp at h))
+  subst h
+  simp
+
+/-- what an accepted message guarantees, in one statement -/
+theorem auth_sound (O : Oracle) (recipient msg : Bytes) (timeout now : Int) (tok : Token)
+    (h : authenticateAs O recipient msg timeout now = some tok) :
+    msg.length = 137 ∧ recipientOf msg = recipient ∧ tok.peerId ≠ recipient ∧
+    O.verify (keyOf msg) (prefixOf msg) (sigOf msg) = true ∧
+    (timeout > 0 → skewExceeds now (tsOf msg) timeout = false) := by
+  have hs : (authenticateAs O recipient msg timeout now).isSome = true := by simp [h]
+  obtain ⟨h1, h2, h3, h4, h5⟩ := (auth_accept_iff O recipient msg timeout now).mp hs
+  obtain ⟨f1, _, _, _⟩ := auth_token_fields O recipient msg timeout now tok h
+  refine ⟨h1, h3, by rw [f1]; exact h4, h5, ?_⟩
+  intro ht
+  rcases h2 with h2 | h2
+  · omega
+  · exact h2
+
+theorem wrong_recipient_rejected (O : Oracle) (recipient msg : Bytes) (timeout now : Int)
+    (h : recipientOf msg ≠ recipient) : authenticateAs O recipient msg timeout now = none := by
+  cases hc : authenticateAs O recipient msg timeout now with
+  | none => rfl
+  | some tok => exact absurd (auth_sound O recipient msg timeout now tok hc).2.1 h
+
+theorem self_rejected (O : Oracle) (recipient msg : Bytes) (timeout now : Int)
+    (h : O.idOf (keyOf msg) = recipient) : authenticateAs O recipient msg timeout now = none := by
+  cases hc : authenticateAs O recipient msg timeout now with
+  | none => rfl
+  | some tok =>
+    have hs : (authenticateAs O recipient msg timeout now).isSome = true := by simp [hc]
+    exact absurd h ((auth_accept_iff O recipient msg timeout now).mp hs).2.2.2.1
+
+theorem bad_signature_rejected (O : Oracle) (recipient msg : Bytes) (timeout now : Int)
+    (h : O.verify (keyOf msg) (prefixOf msg) (sigOf msg) = false) :
+    authenticateAs O recipient msg timeout now = none := by
+  cases hc : authenticateAs O recipient msg timeout now with
+  | none => rfl
+  | some tok =>
+    have := (auth_sound O recipient msg timeout now tok hc).2.2.2.1
+    simp [h] at this
+
+/-! ## freshness: the float64 comparison is the integer comparison below 2^53 -/
+
+theorem roundF64_small (x : Int) (h : x.natAbs < 2 ^ 53) : roundF64 x = x := by
+  unfold roundF64
+  simp only [h, if_true]
+
+/-- For a non-negative clock, timestamp and timeout below 2^53 (seconds: 285 million years) the
+    Go expression `math.Abs(float64(now)-float64(ts)) > float64(timeout)` is `|now - ts| > timeout`. -/
+theorem skew_int (now : Int) (ts : Nat) (timeout : Int) (hn0 : 0 ≤ now) (hn : now < 2 ^ 53) (hts : ts < 2 ^ 53)
+    (ht : timeout.natAbs < 2 ^ 53) :
+    skewExceeds now ts timeout = decide ((now - (ts : Int)).natAbs > timeout) := by
+  unfold skewExceeds
+  have h1 : roundF64 now = now := roundF64_small now (by omega)
+  have h2 : roundF64 (ts : Int) = (ts : Int) := roundF64_small _ (by omega)
+  have h3 : roundF64 (now - (ts : Int)) = now - (ts : Int) := roundF64_small _ (by omega)
+  have h4 : roundF64 timeout = timeout := roundF64_small _ ht
+  rw [h1, h2, h3, h4]
+
+/-- a stale or premature message is rejected when freshness is on (integer range) -/
+theorem stale_rejected (O : Oracle) (recipient msg : Bytes) (timeout now : Int)
+    (hn0 : 0 ≤ now) (hn : now < 2 ^ 53) (hts : tsOf msg < 2 ^ 53) (ht0 : 0 < timeout) (ht : timeout < 2 ^ 53)
+    (hstale : (now - (tsOf msg : Int)).natAbs > timeout) :
+    authenticateAs O recipient msg timeout now = none := by
+  cases hc : authenticateAs O recipient msg timeout now with
+  | none => rfl
+  | some tok =>
+    have := (auth_sound O recipient msg timeout now tok hc).2.2.2.2 ht0
+    rw [skew_int now _ timeout hn0 hn hts (by omega)] at this
+    simp at this
+    omega
+
 end Mixin.C30
